@@ -2292,15 +2292,56 @@ let rec versions_own seen = function
        (versions_own seen l')
    | _ -> versions_own seen l')
 
+(** val ptr_validated : sets -> blk0 option -> pev list -> bool **)
+
+let rec ptr_validated ho pending0 = function
+| [] -> true
+| e :: l' ->
+  let ho' = upd0 ho e in
+  (match e with
+   | PRLock (c, ok, w) ->
+     if beq c root_blk
+     then ptr_validated ho' None l'
+     else (match pending0 with
+           | Some m ->
+             if beq m c
+             then ptr_validated ho' (if ok then pending0 else None) l'
+             else false
+           | None ->
+             ptr_validated ho'
+               (if (&&) (negb ok) (Z.eqb w (Zpos XH)) then None else pending0)
+               l')
+   | PCheck (n, ok, _) ->
+     if ok
+     then ptr_validated ho'
+            (match pending0 with
+             | Some m -> if beq m n then None else pending0
+             | None -> None) l'
+     else ptr_validated ho' None l'
+   | PUpgrade (n, ok, _) ->
+     if ok
+     then ptr_validated ho'
+            (match pending0 with
+             | Some m -> if beq m n then None else pending0
+             | None -> None) l'
+     else ptr_validated ho' None l'
+   | PLoad n ->
+     if (||) (existsb (beq n) (fst ho)) (existsb (beq n) (snd ho))
+     then ptr_validated ho' pending0 l'
+     else ptr_validated ho' (Some n) l'
+   | _ -> ptr_validated ho' pending0 l')
+
 (** val op_ok : pev list -> bool **)
 
 let op_ok l =
   let a = last_attempt l in
   (&&)
-    ((&&) ((&&) (loads_covered ([], (allocs l)) a) (coupled a))
-      (match held_at_end l with
-       | [] -> true
-       | _ :: _ -> false)) (versions_own [] l)
+    ((&&)
+      ((&&) ((&&) (loads_covered ([], (allocs l)) a) (coupled a))
+        (match held_at_end l with
+         | [] -> true
+         | _ :: _ -> false)) (versions_own [] l))
+    (ptr_validated ([], (allocs l)) None l)
 
 (** val is_failure : pev -> bool **)
 
@@ -2323,7 +2364,8 @@ let rec scan_loads_covered = function
 (** val scan_ok : pev list -> bool **)
 
 let scan_ok l =
-  (&&) (versions_own [] l) (scan_loads_covered l)
+  (&&) ((&&) (versions_own [] l) (scan_loads_covered l))
+    (ptr_validated ([], []) None l)
 
 type tid0 = nat
 
